@@ -242,7 +242,8 @@ class ScoOperationsRegistry(AbstractScoOperationsRegistry):
             )
             return InvocationState.FAILED
 
-        return InvocationState.FINISHED
+        # the response must report the same final state as the OperationInvokedReport that was just sent
+        return execute_result.invocation_state
 
     def start_worker(self):
         """Start worker thread."""
